@@ -38,7 +38,15 @@ func C10(p *load.Prog, r *report.Report) {
 		id string
 		f  func(*load.Prog, *report.Report)
 	}{{"C01", C01}, {"C02", C02}, {"C03", C03}, {"C04", C04}, {"C05", C05}, {"C06", C06}, {"C07", C07}, {"C08", C08}, {"C09", C09}, {"C13", C13}, {"C14", C14}} {
-		inherit(p, r, "C10", d.id, d.f)
+		switch d.id {
+		case "C08":
+			// the model only needs hashing to produce a valid element as a function of its arguments; which RFC bytes are hashed is C08's business
+			inherit(p, r, "C10", d.id, d.f, "C08.inputs-readonly", "C08.composition", "C08.inherited", "C08.total", "C08.model", "C08.anchor")
+		case "C09":
+			inherit(p, r, "C10", d.id, d.f, "C09.inputs-readonly", "C09.total", "C09.model", "C09.anchor")
+		default:
+			inherit(p, r, "C10", d.id, d.f)
+		}
 	}
 	runFrameControls(r, "C10", map[string]bool{"argwrite": true, "ptrresult": true, "globalwrite": true})
 	apiSamples(p, a, r)
